@@ -3,6 +3,7 @@
 package term
 
 import (
+	"bufio"
 	"bytes"
 	"os"
 	"sync"
@@ -100,7 +101,8 @@ func VerifResize(m *Model, w, h int) {
 // goroutine does between sequences). after, if not nil, is called after every
 // sequence
 func VerifFeed(m *Model, data []byte, after func(seq ansi.Sequence)) {
-	parser := ansi.NewParser(bytes.NewReader(data))
+	// one feed is one read: the whole chunk is buffered at once
+	parser := ansi.NewParser(bufio.NewReaderSize(bytes.NewReader(data), len(data)+16))
 	m.parser = parser
 	done := false
 	defer func() {
